@@ -865,7 +865,8 @@ fn graph_program(n: usize, edges: &[Vec<usize>], order: &[usize], plus: &[bool],
         if plus[k] {
             body = format!("{body} + 1");
         }
-        s.push_str(&format!("fn f{k}({p}) {{ {body} }}\n"));
+        // a local whose type joins the parameter's type with a type variable of its own
+        s.push_str(&format!("fn f{k}({p}) {{ let kept{k} = #({p}, []) {body} }}\n"));
     }
     let _ = n;
     s
@@ -1385,6 +1386,28 @@ fn graphs_layer(rep: &mut Report, tier: Tier) {
                             Ok(Some(g)) => g.strip_prefix(&format!("fn f{k}")).map(|r| format!("fn{r}")).and_then(|s| parse_ty(&s)).map_or(false, |g| alpha_eq(&g, wk)),
                             _ => false,
                         };
+                        // the local `kept<k>`: the parameter's type next to a variable of its own
+                        let mut ok = ok;
+                        let mut got = got;
+                        let mut wk = wk.clone();
+                        if ok {
+                            if let Fn(ps, _) = &want[k] {
+                                let wl = Tuple(vec![ps[0].clone(), List(Box::new(Var("own_of_the_local".into())))]);
+                                let loff = text.find(&format!("let kept{k} ")).unwrap() + 4;
+                                q += 1;
+                                let gl = hover_type(&an, file, loff);
+                                let lok = match &gl {
+                                    Ok(Some(g)) => parse_ty(g).map_or(false, |g| alpha_eq(&g, &wl)),
+                                    _ => false,
+                                };
+                                if !lok {
+                                    ok = false;
+                                    got = gl.map(|o| o.map(|t| format!("kept{k}: {t}")));
+                                    wk = wl;
+                                }
+                            }
+                        }
+                        let wk = &wk;
                         if !ok && viol.len() < 3 {
                             let recursive = edges.iter().enumerate().any(|(a, e)| e.contains(&a)) || (0..n).any(|a| (0..n).any(|b| a != b && edges[a].contains(&b) && edges[b].contains(&a)));
                             let shadow = names.iter().any(|x| x.is_some());
@@ -1405,7 +1428,7 @@ fn graphs_layer(rep: &mut Report, tier: Tier) {
             rep.violation(x);
         }
     }
-    l.bound = format!("all digraphs on {n} functions (self loops included; ill-typed ones by the reference HM excluded) x every subset of functions ending in `+ 1` x parameter names (`x`, or spelled like a function the owner does not call: all combinations for n = 2, one at a time for n = 3) x all {} item orders; expected types by a reference Hindley-Milner with SCC-wise generalisation", permutations(n).len());
+    l.bound = format!("all digraphs on {n} functions (self loops included; ill-typed ones by the reference HM excluded) x every subset of functions ending in `+ 1` x parameter names (`x`, or spelled like a function the owner does not call: all combinations for n = 2, one at a time for n = 3) x all {} item orders; expected types by a reference Hindley-Milner with SCC-wise generalisation; in every function a local `#(parameter, [])` must show the parameter's type next to a type variable of its own", permutations(n).len());
     rep.layer(l);
 }
 
